@@ -75,6 +75,13 @@ class ConclusionSelector(LogicalBinaryOperator, ABC):
     def _plot_color_(self) -> ColorLegend:
         return ColorLegend("ConclusionSelector", "#eded18")
 
+    def _reset_evaluation_state_(self) -> None:
+        """
+        Forget what was concluded during a previous evaluation of the query, a new evaluation concludes afresh.
+        """
+        for concluded_before in self.concluded_before.values():
+            concluded_before.clear()
+
 
 @dataclass(eq=False)
 class ExceptIf(ConclusionSelector):
